@@ -400,7 +400,7 @@ class Machine:
         except sched.SimAbort:
             raise
         except BaseException as e:  # noqa: BLE001
-            out = ('exc', type(e).__name__, fp.short(e))
+            out = fp.fp_exc(e)
             o = None
         else:
             try:
@@ -488,7 +488,7 @@ class Machine:
                 r = o.select(self.doc)
             return ('els', tuple(self.doc_idx.get(id(e), 'foreign') for e in r))
         except Exception as e:  # noqa: BLE001
-            return ('exc', type(e).__name__, fp.short(e))
+            return fp.fp_exc(e)
 
     def op_clone(self, op):
         rec = self._pick(op)
@@ -505,7 +505,7 @@ class Machine:
                 else:
                     c = pickle.loads(pickle.dumps(o, protocol=op.get('proto', pickle.HIGHEST_PROTOCOL)))
         except Exception as e:  # noqa: BLE001
-            out = ('exc', type(e).__name__, fp.short(e))
+            out = fp.fp_exc(e)
             self.violate('4-copy', key=k, how=how, proto=op.get('proto'), observed=list(out),
                          pattern=self.keys[k]['pattern'])
             return out
@@ -513,7 +513,7 @@ class Machine:
             with sched.traced():
                 e1, e2, e3 = c == o, not (c != o), hash(c) == hash(o)
         except Exception as e:  # noqa: BLE001
-            out = ('exc', type(e).__name__, fp.short(e))
+            out = fp.fp_exc(e)
             self.violate('4-copy', key=k, how=how, proto=op.get('proto'), observed=list(out),
                          pattern=self.keys[k]['pattern'], detail='comparing the clone with the original raised')
             return out
@@ -1604,6 +1604,9 @@ def evidence(agg, info, plan_, tier):
     faults = {k[6:]: v for k, v in probes.items() if k.startswith('fault:')}
     faults['purge-by-peer(purge finished while a compile was in flight)'] = probes.get('purge_during_inflight_compile', 0)
     faults['small-cache(runs with bound<500)'] = sum(v for k, v in c.items() if k.startswith('bound:') and k != 'bound:500')
+    faults['caller-changed-the-maps-it-passed(after compile returned)'] = probes.get('caller_changed_its_maps_after_compile', 0)
+    faults['caller-passed-the-same-map-object-again(new content)'] = probes.get('caller_passed_the_same_map_object_again', 0)
+    faults['mutation-attempts-not-rejected'] = probes.get('mutation_not_rejected', 0)
     sites = sorted(((v, k[10:]) for k, v in c.items() if k.startswith('faultsite:')), reverse=True)
     cov = {
         'evaluations': agg.runs,
